@@ -37,6 +37,13 @@ MUTATIONS = [
     ("C12", "multiply-left-no-parens", "expression/ast.py", "        if isinstance(self.left, (Add, Subtract)):\n            left_string = f\"({left_string})\"", "        if isinstance(self.left, (Add,)):\n            left_string = f\"({left_string})\"", 1),
     ("C12", "format-ordering-off", "format/_format.py", "mode.character + str(ordering)", "mode.character + str(ordering + 0 * len(self.modes))", 0),
     ("C12", "format-deparse-drops-ordering", "format/_format.py", "        if self.ordering == tuple(range(self.order)):", "        if self.ordering[:1] == tuple(range(self.order))[:1]:", 1),
+    ("C03", "exhaust-add-zero-when-one-side", "iteration_graph/identifiable_expression/_exhaust_tensor.py", "    elif left_exhausted == Integer(0):\n        # Covers the case where both are exhausted\n        return right_exhausted", "    elif left_exhausted == Integer(0):\n        # Covers the case where both are exhausted\n        return Integer(0)", 1),
+    ("C03", "exhaust-multiply-keeps", "iteration_graph/identifiable_expression/_exhaust_tensor.py", "    elif left_exhausted == Integer(0) or right_exhausted == Integer(0):\n        return Integer(0)", "    elif left_exhausted == Integer(0) and right_exhausted == Integer(0):\n        return Integer(0)", 1),
+    ("C03", "flags-unconditional", "iteration_graph/_generate_ir.py", "    if self.expression != Integer(0):\n        for flag", "    if True:\n        for flag", 1),
+    ("C16", "context-add-or", "iteration_graph/identifiable_expression/_extract_context.py", "            is_sparse=self.is_sparse and other.is_sparse,", "            is_sparse=self.is_sparse or other.is_sparse,", 1),
+    ("C16", "is-sparse-ignores-output", "iteration_graph/_generate_ir.py", "    is_sparse = self.is_sparse_input() and (self.output is None or self.is_sparse_output())", "    is_sparse = self.is_sparse_input()", 1),
+    ("C04", "is-assemble-true-for-compute", "kernel_type.py", "        return self == KernelType.assemble or self == KernelType.evaluate", "        return True", 1),
+    ("C04", "flags-only-when-compute", "iteration_graph/_generate_ir.py", "    if self.expression != Integer(0):\n        for flag", "    if self.expression != Integer(0) and kernel_type.is_compute():\n        for flag", 1),
     ("C07", "harmless-rename-locals", "ir/_peephole.py", "    condition = peephole_expression(self.condition)\n    body = peephole_statement(self.body)\n\n    if condition == BooleanLiteral(False):\n        return Block([])\n    elif isinstance(self.body, Block) and self.body.is_empty():\n        return Block([])\n    else:\n        return Loop(condition, body)",
      "    new_body = peephole_statement(self.body)\n    cond = peephole_expression(self.condition)\n\n    if isinstance(self.body, Block) and self.body.is_empty():\n        return Block([])\n    if cond == BooleanLiteral(False):\n        return Block([])\n    return Loop(cond, new_body)", 0),
 ]
